@@ -327,13 +327,23 @@ class ParseContext:
       module = root_name
     else:
       module = '.'.join([source.partial_path(), *inner_names])
+    import_source = self._import_source(source, attr_names)
 
     original = _inverse_lookup(fn_or_cls)
+    if original is not None:
+      # A class re-registered for one of its methods keeps the selector it
+      # already has, whichever import spelling reached it this time.
+      fn_or_cls_name, module = original.name, original.module
+      import_source = original.import_source
+    elif inspect.isfunction(fn_or_cls) and inspect.isclass(path_attrs[-1]):  # pytype: disable=not-supported-yet
+      parent = _inverse_lookup(path_attrs[-1])
+      if parent is not None:  # A method lives under its class's selector.
+        module = parent.selector
     _make_configurable(
         fn_or_cls,
         name=fn_or_cls_name,
         module=module,
-        import_source=self._import_source(source, attr_names),
+        import_source=import_source,
         # A re-registration keeps the lists the configurable was registered with.
         allowlist=original.allowlist if original else None,
         denylist=original.denylist if original else None,
